@@ -75,6 +75,7 @@ EFFECT_HEAVY = dict(
     p_clean_step=0.0, p_catch=0.8, w_raise=8, p_hash=0.4, p_tamper=0.2,
     mutation_ops=['write', 'rm', 'mkdir', 'touch', 'write'])
 VERSION_HEAVY = dict(
+    p_weird_names=0.3,
     p_version_change=0.7, n_steps=(3, 7), p_mutate_step=0.1,
     p_two_variants=0.9, n_groups=(1, 1), w_bf=28, w_sb=24, w_q=30,
     p_catch=0.8, n_paths=(3, 6), max_nest=4, p_clean_step=0.0)
@@ -384,6 +385,13 @@ CAMPAIGNS['C09'].append(
          'sampled points per scenario; thorough: all)',
          mode='sched-sweep', nontrivial=nt_threads, chunk=3,
          post='tag_all:C09', sweep_max={'quick': 12, 'thorough': None}))
+CAMPAIGNS['C09'].append(
+    camp('c09-duplicates', 'threads', {'p_same_key': 1.0},
+         'the same build_file path / subbuild key issued from 2-4 threads '
+         '(duplicates are part of C09\'s scenario space): one execution, the '
+         'others rejected, the winner\'s output and record intact, rebuild '
+         'and clean as after a sequential build', nontrivial=nt_threads,
+         post='tag_all:C09', weight=0.6))
 EXPLORATORY.setdefault('C09', []).append(
     camp('c09-threads-oserror', 'threads', {'p_tamper': 0.6}, THREAD_RULE +
          '; OSError at every pre-commit mutating call index of the last '
